@@ -117,7 +117,7 @@ def oracle(case, rec, pts=None):
         with np.errstate(all='ignore'):
             d = np.asarray(D(p[l:r + 1], p[l], p[r]), dtype=float)
         mx = float(np.max(d[1:-1]))
-        noise = 64 * EPS * max(1.0, float(np.max(np.abs(p[l:r + 1]))))
+        noise = lib.chord_noise(p, l, r) + 1e-12 * mx
         cands = [s for s in inner if d[s - l] >= mx - noise]
         if not cands:
             why.append('range [%d,%d]: no retained index is a farthest interior point (max %r, retained %r)' %
